@@ -604,6 +604,47 @@ def real_dataset_checks(tier):
         ed[tbl].attrs['comment'] = 'edited'
         if key_of(ed) == key_of(tmesh):
             V('real:ugrid:transposed-tables', 'a single edit of a geometry variable changes the cache key', f'{tbl} attribute edited on a mesh stored transposed')
+    # face / edge coordinates named with other white space between the two names (two blanks, a tab, a line break)
+    for sep in (' ', '  ', '\t', '\n', ' \t '):
+        try:
+            fm = builders.ugrid('tqp', supply=('edge_node',), fill='nan')
+            mesh_name = next(n for n, v in fm.variables.items() if v.attrs.get('cf_role') == 'mesh_topology')
+            fdim = fm[fm[mesh_name].attrs['face_node_connectivity']].dims[0]
+            nfm = fm.sizes[fdim]
+            fm['face_x'] = ((fdim,), numpy.arange(nfm, dtype=float) + 0.5)
+            fm['face_y'] = ((fdim,), numpy.arange(nfm, dtype=float) * 2.0 + 0.25)
+            fm[mesh_name].attrs['face_coordinates'] = 'face_x' + sep + 'face_y'
+            names_f = set(fm.copy().ems.get_all_geometry_names())
+            if not {'face_x', 'face_y'} <= names_f:
+                V('real:ugrid:face-coordinates', 'the face coordinates named by the mesh are geometry variables', f'separator {sep!r}: {sorted(map(str, names_f))}')
+                continue
+            for which in ('face_x', 'face_y'):
+                ed = fm.copy(deep=True)
+                vals_ = ed[which].values.copy()
+                vals_[-1] += 1.0
+                ed[which] = (ed[which].dims, vals_, dict(ed[which].attrs))
+                if key_of(ed) == key_of(fm):
+                    V('real:ugrid:face-coordinates', 'a single edit of a geometry variable changes the cache key', f'one value of {which}, separator {sep!r}')
+        except Exception as e:
+            notes.append(f'ugrid face coordinates sep {sep!r}: not applicable ({type(e).__name__}: {str(e)[:60]})')
+    # an empty selection along one axis: the (empty) geometry variables still have names, types, shapes and attributes
+    for conv in ('cf1d',):
+        try:
+            full = _dataset(conv)
+            gnames = [str(g) for g in full.copy().ems.get_all_geometry_names()]
+            for g in gnames:
+                if full[g].ndim < 1:
+                    continue
+                empty = full.isel({full[g].dims[0]: slice(0, 0)})
+                base_key = key_of(empty)
+                for label, edit in (('attribute added', lambda d, g=g: d[g].attrs.__setitem__('comment', 'edited')),
+                                    ('type changed', lambda d, g=g: d.__setitem__(g, (d[g].dims, d[g].values.astype('float32' if d[g].dtype != numpy.dtype('float32') else 'float64'), dict(d[g].attrs))))):
+                    ed = empty.copy(deep=True)
+                    edit(ed)
+                    if key_of(ed) == base_key:
+                        V(f'real:{conv}:empty-selection', 'a single edit of a geometry variable changes the cache key', f'{g} (length 0): {label}')
+        except Exception as e:
+            notes.append(f'{conv}: empty selection not applicable ({type(e).__name__}: {str(e)[:80]})')
     # the key of a SHOC dataset does not depend on what other datasets were opened with earlier in the process
     from emsarray.conventions.arakawa_c import ArakawaCGridKind as K
     from emsarray.conventions.shoc import ShocStandard
